@@ -169,3 +169,76 @@ Proof.
   - exact (id_helper_exactly_on_id_fields _ _ _ _ _ _ _ _ _ _ (fields_all_root _ root) H).
   - exact (id_helper_fits_everywhere _ _ _ _ _ _ _ _ _ _ (fields_all_root _ root) H).
 Qed.
+
+(* ---- serde(default) sits exactly on the Option-typed ID fields: an absent nullable ID is None, an absent
+   non-null ID is an error, wherever the field is *)
+Definition is_opt (t : rtype) : bool := match t with ROption _ => true | _ => false end.
+Definition first_req (quals : list qual) : bool := match quals with QRequired :: _ => true | _ => false end.
+
+Lemma dec_loop_app : forall l1 l2 acc nn,
+  dec_loop (l1 ++ l2) acc nn = match dec_loop l1 acc nn with Some (t, n1) => dec_loop l2 t n1 | None => None end.
+Proof.
+  induction l1 as [|q r IH]; intros l2 acc nn; cbn [app dec_loop]; [reflexivity|].
+  destruct q, nn; try reflexivity; apply IH.
+Qed.
+
+Lemma dec_loop_not_opt : forall qs acc nn t nn', dec_loop qs acc nn = Some (t, nn') -> is_opt acc = false -> is_opt t = false.
+Proof.
+  induction qs as [|q r IH]; intros acc nn t nn' H Hc; cbn [dec_loop] in H.
+  - inversion H. subst. exact Hc.
+  - destruct q, nn; try discriminate H; apply (IH _ _ _ _ H); try reflexivity; exact Hc.
+Qed.
+
+Lemma decorate_top_option n quals t : decorate n quals = Some t -> is_opt t = negb (first_req quals).
+Proof.
+  unfold decorate. destruct quals as [|q qs].
+  - cbn. intros H. inversion H. reflexivity.
+  - cbn [rev]. rewrite dec_loop_app.
+    destruct (dec_loop (rev qs) (RNamed n) false) as [[t1 n1]|] eqn:E; [|discriminate].
+    assert (N := dec_loop_not_opt _ _ _ _ _ E eq_refl).
+    destruct q; cbn [dec_loop first_req negb].
+    + destruct n1; [discriminate|]. intros H. inversion H. subst. exact N.
+    + destruct n1; intros H; inversion H; reflexivity.
+Qed.
+
+Definition id_default (x : option rfield) : Prop :=
+  match x with
+  | Some f => unbox (f_ty f) = RNamed "<double required>" \/
+              ((f_default f = true -> is_opt (unbox (f_ty f)) = true) /\
+               (f_deser_with f <> None -> is_opt (unbox (f_ty f)) = true -> f_default f = true))
+  | None => True
+  end.
+
+Lemma render_field_id_default o a b ft quals fl d bx : id_default (render_field o a b ft quals fl d bx).
+Proof.
+  unfold id_default. destruct (render_field o a b ft quals fl d bx) as [f|] eqn:E; [|exact I].
+  unfold render_field in E.
+  set (ty0 := match decorate ft quals with Some t => t | None => RNamed "<double required>" end) in *.
+  fold (first_req quals) in E.
+  set (hd := if String.eqb ft "ID" then
+              if existsb (qual_eqb QList) quals && negb (first_req quals) then (Some "deserialize_id_list", true)
+              else if existsb (qual_eqb QList) quals then (Some "deserialize_id_list", false)
+              else if existsb (qual_eqb QRequired) quals then (Some "deserialize_id", false)
+              else (Some "deserialize_option_id", true)
+            else (@None string, false)) in *.
+  assert (Hf : f_ty f = (if bx then RBox ty0 else ty0) /\ f_deser_with f = fst hd /\ f_default f = snd hd).
+  { destruct d as [[m|]|]; destruct (strategy o); inversion E; repeat split; reflexivity. }
+  destruct Hf as [Hty [Hw Hd]]. clear E.
+  destruct (decorate ft quals) as [t|] eqn:Ed.
+  2:{ left. rewrite Hty. destruct bx; reflexivity. }
+  right. assert (Hu : unbox (f_ty f) = t).
+  { rewrite Hty. destruct bx; [reflexivity|]. exact (decorate_unbox _ _ _ Ed). }
+  rewrite Hu, Hw, Hd, (decorate_top_option _ _ _ Ed). clear Hu Hw Hd Hty. unfold hd. clear hd.
+  destruct (String.eqb ft "ID"); [|split; [discriminate|intros H; exfalso; apply H; reflexivity]].
+  destruct (existsb (qual_eqb QList) quals) eqn:El; cbn [andb].
+  - destruct (first_req quals); cbn [negb fst snd]; split; intros; congruence.
+  - destruct quals as [|[] qs]; cbn [existsb qual_eqb orb first_req negb fst snd] in *; try discriminate El; split; intros; congruence.
+Qed.
+
+Theorem id_default_exactly_on_option_fields s frs o fuel c sels sid t p c' :
+  fields_all id_default c -> calc s frs o fuel c sels sid t p = Some c' -> fields_all id_default c'.
+Proof.
+  rewrite calcG_is_calc.
+  exact (proj1 (calcG_inv s frs o (render_field o) (o_other_variant o) id_default
+                          (fun a x c0 d e f h => render_field_id_default o a (kw x) c0 d e f h) fuel) c sels sid t p c').
+Qed.
